@@ -119,14 +119,15 @@ def _cook_check(repo, rep):
     ok_reload = ok_skip = False
     for p in paths:
         conds = {src(e[1]): e[2] for e in p if e[0] == "cond"}
+        cl = list(conds.items())
         calls = [src(c) for c, _ in P.calls_on_path(p)]
         assigns = [(e[1], src(e[2])) for e in p if e[0] == "assign"]
-        if conds.get("self.auto_reload") and \
-                conds.get("mtime != self._v_last_read"):
+        if L.cond_holds(cl, "self.auto_reload", True) and \
+                L.cond_holds(cl, "mtime != self._v_last_read", True):
             if ("self._cooked", "False") in assigns and \
                     ("self._v_last_read", "mtime") in assigns:
                 ok_reload = True
-        if conds.get("self._cooked is False") is False:
+        if L.cond_holds(cl, "self._cooked is False", False):
             if "self.cook(body)" not in calls and "self.read()" not in calls:
                 ok_skip = True
     rep.check(ok_reload, "R16.1", site, "with auto_reload a changed "
